@@ -522,9 +522,9 @@ func (s *Service) issue(ctx context.Context, peer boson.Address, recipient, bene
 		return ErrInsufficientFunds
 	}
 
-	cumulativePayout := traffic.retrieveChequeTraffic
-	// increase cumulativePayout by amount
-	cumulativePayout = cumulativePayout.Add(cumulativePayout, balance)
+	// increase cumulativePayout by amount; the stored total may share its big.Int
+	// with the chain total after a refresh, so it must not be modified in place
+	cumulativePayout := new(big.Int).Add(traffic.retrieveChequeTraffic, balance)
 	// create and sign the new cheque
 	c := chequePkg.Cheque{
 		Recipient:        recipient,
